@@ -476,7 +476,41 @@ def r9_mark_monotone(c, facts, rule='C09.R9'):
         c.ok(R, {'writers': sorted(writers)})
 
 
+def r13_export_all(c, facts, rule='C09.R13'):
+    """every value registered while evaluating (ctx.refs) becomes a component of the specification: the recursion points
+    and the uses of a reference are `$ref`s to its *name*, whatever the value is - an alias of another reference included"""
+    R = c.rule(rule, 'EXPORT-ALL: eval_program exports every evaluated entry of the reference table, whatever its value')
+    fn = facts.normalised(c.anchor(R, 'oal_compiler::eval::eval_program'))
+    idx = MF.defs_index(fn)
+    ins = {b for b, t in P.call_blocks(fn, 'IndexMap::insert', 'IndexMap::insert_full') if t['args'] and 'Reference' in t['args'][0].get('ty', '')}
+    if not ins:
+        # `.filter_map(..).collect()` forms are read by the census of C03.R1 on the emitter side; here: the loop form
+        c.skip(R, 'eval_program', 'no insertion into the exported table found in loop form')
+        return
+    extra = set()
+    for b, blk in fn.blocks():
+        sw = blk['term']
+        if sw['t'] != 'switch' or 'l' not in sw['discr']:
+            continue
+        succ = fn.succ(b)
+        dom = [any(fn.dominates(x, e) or x == e for e in ins) for x in succ]
+        if not (any(dom) and not all(dom)):
+            continue
+        tys = [st['rv']['place'].get('ty', '') for st in blk['stmts'] if st['s'] == 'assign' and st['rv']['r'] == 'discr' and st['place']['l'] == sw['discr']['l']]
+        if tys and all(t.startswith(('std::option::Option<', 'core::option::Option<', '&std::option::Option<')) for t in tys):
+            continue        # the end of the iteration, or an entry that is still the in-progress marker (None)
+        gs = MF.slice_back(fn, sw['discr']['l'], idx, through_calls=False)
+        names = sorted({P.strip(n).split('::')[-1] for n, _, _ in gs['calls']}) or sorted(t.split('<')[0].split('::')[-1] for t in tys) or ['a condition']
+        extra |= set(names)
+    inst = {'insert sites': len(ins)}
+    if extra:
+        c.bad(R, 'eval_program:entry-exported-conditionally:%s' % ','.join(sorted(extra)), 'eval_program exports an evaluated reference only when %s says so: the `$ref`s to the entries it leaves out point at components that do not exist' % sorted(extra), **inst)
+    else:
+        c.ok(R, inst)
+
+
 def run(c, facts):
+    c.run(r13_export_all, facts)
     import c14 as _c14
     import inferrules as _I
     R11 = c.rule('C09.R11', 'COMPONENT-FROM-PROGRAM: the components a recursion point refers to are the program\'s: components.schemas of the document is what all_components() produced, not an entry of a base description with the same name (shared with C14.R3)')
